@@ -69,6 +69,9 @@ class Runner:
                 s = honest_sig(req['hash'], req.get('level') or 0)
                 rs = copy.deepcopy(s)
                 rs.chains[0].links[0].corr -= (req.get('level') or 0)
+                if req.get('conf'):
+                    # one PDU asked for both: one PDU answers both
+                    return S.wrap_v2(S.AGGR_RESP_V2, [R.T(2, S.aggr_payload(req['req_id'], rs)), S.conf_elem('aggr', 2, max_level=17, aggr_period=400, max_req=4)], KEY)
                 return S.aggr_response(req, rs, KEY)
             req = S.parse_request(raw[:off], 'ext', 2)
             pp = req['pub_time'] if req.get('pub_time') is not None else req['aggr_time'] + 5000
@@ -203,6 +206,12 @@ def OPS(E):
         out += [r.c('async_add 0 0 signh %s 3 t2' % R.H(1, b'second').hex()).get('rc')]
         return out + sorted(r.pump_async(8))
 
+    def async_sign_with_conf(r):
+        # one request that carries a hash AND asks for the configuration: the service keeps two handles for it
+        out = [r.c('async_add 0 0 signwconf %s 0 t1' % h.hex()).get('rc')]
+        out += [r.c('async_add 0 0 sign %s 3 t2' % R.H(1, b'second').hex()).get('rc')]
+        return out + sorted(r.pump_async(8))
+
     def with_async_ext(r):
         with_async('extend')(r)
         r.c('sigparse 0 0 empty ' + E.sig_hex)
@@ -247,6 +256,7 @@ def OPS(E):
         'async_conf_tcp': (with_async('sign'), async_conf),
         'async_extend_signature': (with_async_ext, async_extend_signature),
         'async_signing_handle': (with_async('sign'), async_signing_handle),
+        'async_sign_with_conf': (with_async('sign'), async_sign_with_conf),
         'ha_sign': (with_async('hasign', 'ksi+tcp://b.example:1'), async_sign),
         'blocksign': (with_net, one('blocksign 0 5 1 1 7', ('rc', 'nsig'))),
         'blocksign_plain': (with_net, one('blocksign 0 9 0 0 8', ('rc', 'nsig'))),
